@@ -6,6 +6,8 @@ import (
 	"fmt"
 	"io"
 	"math/rand"
+	"runtime"
+	"sync"
 	"testing"
 	"testing/iotest"
 
@@ -177,6 +179,7 @@ func TestC10(t *testing.T) {
 			dcs[i], dcs[j] = dcs[j], dcs[i]
 		}
 	}
+	dcs = append(dcs, dcase{Builder: "auto", Family: "badutf8", N: 60}, dcase{Builder: "sharded", Fanout: 16, Family: "badutf8", N: 60}, dcase{Builder: "quick", Family: "badutf8", N: 40})
 	for _, n := range []int{0, 1, 7, 300} {
 		dcs = append(dcs, dcase{Builder: "auto", Family: "mixed", N: n}, dcase{Builder: "quick", Family: "ascii", N: n})
 	}
@@ -298,6 +301,49 @@ func TestC10(t *testing.T) {
 				if res.key() != b0.key() {
 					c.Violation("C10|dir|permutation|"+d.Builder, "%s fanout %d, %d entries (%s): permutation %d returned (%s, %d, %q), original order (%s, %d, %q)", d.Builder, d.Fanout, len(names), d.Family, i, res.root, res.size, res.err, b0.root, b0.size, b0.err)
 					break
+				}
+			}
+			// the same build by three goroutines at once over one shared LinkSystem
+			if d.Builder != "quick" && len(names) > 1 && len(names) <= 400 {
+				st := base.Clone()
+				st.OnCommit = func(*store.Store, cid.Cid, []byte) { runtime.Gosched() }
+				ls := st.LinkSystem(false)
+				outs := make([]buildResult, 3)
+				var wg sync.WaitGroup
+				for g := 0; g < 3; g++ {
+					wg.Add(1)
+					go func(g int) {
+						defer wg.Done()
+						defer func() {
+							if p := recover(); p != nil {
+								outs[g].err = fmt.Sprint("panic: ", p)
+							}
+						}()
+						var l ipld.Link
+						var sz uint64
+						var err error
+						if d.Builder == "sharded" {
+							h := d.Hasher
+							if h == 0 {
+								h = multihash.MURMUR3X64_64
+							}
+							l, sz, err = builder.BuildUnixFSShardedDirectory(d.Fanout, h, entries, ls)
+						} else {
+							l, sz, err = builder.BuildUnixFSDirectory(entries, ls)
+						}
+						outs[g] = buildResult{root: linkCid(l), size: sz}
+						if err != nil {
+							outs[g].err = err.Error()
+						}
+					}(g)
+				}
+				wg.Wait()
+				for g, o := range outs {
+					c.Count("builds_compared", 1)
+					if o.key() != b0.key() {
+						c.Violation("C10|dir|concurrent|"+d.Builder, "%s fanout %d, %d entries: concurrent build %d returned (%s, %d, %q), alone (%s, %d, %q)", d.Builder, d.Fanout, len(names), g, o.root, o.size, o.err, b0.root, b0.size, b0.err)
+						break
+					}
 				}
 			}
 			c.Max("max_distinct_write_orders", int64(len(orders)))
